@@ -186,9 +186,11 @@ theorem at_sound_class (v : Value) (K : Kind) (p : Path) (hs : v.Sorted = true)
 
 /-- **Removal at the root is sound** (every value, kind and compaction flag): the emptied value
     belongs to the kind left behind, the removed value to the returned kind. Removal at non-root
-    paths is unsound in the witnessed classes `D_remove_shift`, `D_remove_neg_underflow` (panic),
-    `D_remove_neg_gap`, `D_remove_through_unknown`, `D_compact_union_alt`, `D_compact_optional_known`,
-    `D_minlen_counts_optional`; no theorem is claimed there. -/
+    paths is unsound in the witnessed classes `D_remove_neg_gap`, `D_remove_through_unknown`,
+    `D_compact_union_alt`, `D_compact_optional_known`, `D_minlen_counts_optional`; no general theorem
+    is claimed there (one field of an exact object kind: `Spec.remove_field_obj_sound`).
+    `D_remove_shift` (ff94317) and `D_remove_neg_underflow` (e3023e2, a panic) are repaired in the
+    implementation: `C19.W.fixed_remove_shift`, `C19.W.fixed_remove_neg_underflow`. -/
 theorem remove_root_sound (v : Value) (K : Kind) (c : Bool) : removeLawM v K [] c = true := by
   unfold removeLawM
   rw [Spec.remove_root_eq]
